@@ -61,6 +61,8 @@ def to_rust(op):
         return '%s %s' % (k, 'w' if op[1] == 'w' else str(op[1][1]))
     if k == 'fault':
         return 'fault %s %d' % (op[1], op[2])
+    if k == 'conv':
+        return 'conv %s %s' % (op[1], ref_rust(op[2]))
     raise ValueError(op)
 
 
@@ -141,6 +143,8 @@ def to_coq(op):
         return 'OClearEv %s' % lvl_coq(op[1])
     if k == 'fault':
         return 'OFault %s %s' % ('FClone' if op[1] == 'clone' else 'FDrop', N(op[2]))
+    if k == 'conv':
+        return 'OConv %s %s' % (kind_coq(op[1]), ref_coq(op[2]))
     raise ValueError(op)
 
 
